@@ -181,87 +181,102 @@ const (
 	outHitWrong = "hit-wrong"
 )
 
-// inspect classifies one ModuleData against the reference. tampered relaxes what the digest does
-// not cover by design (b5: side objects, dependency names).
+// inspect classifies one ModuleData against the reference. Every accessor is judged on its own:
+// one that returns without an error must return correct content even if another accessor
+// reports the digest mismatch. tampered relaxes what the digest does not cover by design (b5:
+// side objects, dependency names).
 func inspect(ctx context.Context, ref *refData, md bufmodule.ModuleData, tampered bool) (outcome, detail string) {
-	accErr := func(what string, err error) (string, string) {
+	errOutcome, errDetail := "", ""
+	accErr := func(what string, err error) {
+		o := outHitOther
 		var dm *bufmodule.DigestMismatchError
 		if errors.As(err, &dm) {
-			return outHitErr, what + ": " + firstLine(err.Error())
+			o = outHitErr
 		}
-		return outHitOther, what + ": " + firstLine(err.Error())
+		if errOutcome == "" {
+			errOutcome, errDetail = o, what+": "+firstLine(err.Error())
+		}
 	}
+	var files map[string][]byte
 	bucket, err := md.Bucket()
 	if err != nil {
-		return accErr("Bucket()", err)
+		accErr("Bucket()", err)
+	} else if files, err = faultx.ReadAll(ctx, bucket); err != nil {
+		files = nil
+		accErr("reading Bucket()", err)
+	} else {
+		// files byte for byte
+		for _, p := range faultx.SortedKeys(ref.files) {
+			got, ok := files[p]
+			if !ok {
+				return outHitWrong, fmt.Sprintf("Bucket() returned no error but file %q is missing from the served bucket", p)
+			}
+			if !bytes.Equal(got, ref.files[p]) {
+				return outHitWrong, fmt.Sprintf("Bucket() returned no error but file %q is served with %d bytes that differ from the original %d bytes", p, len(got), len(ref.files[p]))
+			}
+		}
+		for _, p := range faultx.SortedKeys(files) {
+			if _, ok := ref.files[p]; !ok {
+				return outHitWrong, fmt.Sprintf("Bucket() returned no error but the served bucket has the extra file %q", p)
+			}
+		}
 	}
-	files, err := faultx.ReadAll(ctx, bucket)
-	if err != nil {
-		return outHitOther, "reading Bucket(): " + firstLine(err.Error())
-	}
+	depsOK, sideOK := false, true
+	var depDigests, deps []string
 	depKeys, err := md.DepModuleKeys()
 	if err != nil {
-		return accErr("DepModuleKeys()", err)
+		accErr("DepModuleKeys()", err)
+	} else {
+		depsOK = true
+		for _, k := range depKeys {
+			d, err := k.Digest()
+			if err != nil {
+				return outHitOther, "dep digest: " + err.Error()
+			}
+			depDigests = append(depDigests, d.String())
+			deps = append(deps, k.FullName().String()+" "+k.CommitID().String()+" "+d.String())
+		}
+		sort.Strings(deps)
+		if !tampered && strings.Join(deps, "|") != strings.Join(ref.deps, "|") {
+			return outHitWrong, fmt.Sprintf("DepModuleKeys() returned no error but the keys %v differ from the stored %v", deps, ref.deps)
+		}
 	}
+	side := map[string][]byte{}
 	yamlObj, err := md.V1Beta1OrV1BufYAMLObjectData()
 	if err != nil {
-		return accErr("V1Beta1OrV1BufYAMLObjectData()", err)
+		sideOK = false
+		accErr("V1Beta1OrV1BufYAMLObjectData()", err)
+	} else if yamlObj != nil {
+		side[yamlObj.Name()] = yamlObj.Data()
 	}
 	lockObj, err := md.V1Beta1OrV1BufLockObjectData()
 	if err != nil {
-		return accErr("V1Beta1OrV1BufLockObjectData()", err)
-	}
-	// files byte for byte
-	for _, p := range faultx.SortedKeys(ref.files) {
-		got, ok := files[p]
-		if !ok {
-			return outHitWrong, fmt.Sprintf("file %q missing from the served bucket", p)
-		}
-		if !bytes.Equal(got, ref.files[p]) {
-			return outHitWrong, fmt.Sprintf("file %q served with %d bytes, original has %d", p, len(got), len(ref.files[p]))
-		}
-	}
-	for _, p := range faultx.SortedKeys(files) {
-		if _, ok := ref.files[p]; !ok {
-			return outHitWrong, fmt.Sprintf("served bucket has extra file %q", p)
-		}
-	}
-	// digest recomputed by the reference over what was served
-	side := map[string][]byte{}
-	if yamlObj != nil {
-		side[yamlObj.Name()] = yamlObj.Data()
-	}
-	if lockObj != nil {
+		sideOK = false
+		accErr("V1Beta1OrV1BufLockObjectData()", err)
+	} else if lockObj != nil {
 		side[lockObj.Name()] = lockObj.Data()
 	}
-	var depDigests, deps []string
-	for _, k := range depKeys {
-		d, err := k.Digest()
-		if err != nil {
-			return outHitOther, "dep digest: " + err.Error()
-		}
-		depDigests = append(depDigests, d.String())
-		deps = append(deps, k.FullName().String()+" "+k.CommitID().String()+" "+d.String())
-	}
-	sort.Strings(deps)
-	var recomputed string
-	if ref.spec.DigestType == "b4" {
-		recomputed = faultx.RefB4Digest(files, side)
-	} else {
-		recomputed = faultx.RefB5Digest(files, depDigests)
-	}
-	if recomputed != ref.digest {
-		return outHitWrong, fmt.Sprintf("digest recomputed over the served content is %s, the key pins %s", recomputed, ref.digest)
-	}
-	if !tampered {
-		if strings.Join(deps, "|") != strings.Join(ref.deps, "|") {
-			return outHitWrong, fmt.Sprintf("served dependency keys %v differ from the stored %v", deps, ref.deps)
-		}
+	if sideOK && (!tampered || ref.spec.DigestType == "b4") {
 		for _, n := range []string{"buf.yaml", "buf.lock"} {
 			if !bytes.Equal(side[n], ref.side[n]) || (side[n] == nil) != (ref.side[n] == nil) {
-				return outHitWrong, fmt.Sprintf("served side object %s (%d bytes) differs from the stored one (%d bytes)", n, len(side[n]), len(ref.side[n]))
+				return outHitWrong, fmt.Sprintf("the side object accessors returned no error but %s (%d bytes) differs from the stored one (%d bytes)", n, len(side[n]), len(ref.side[n]))
 			}
 		}
+	}
+	// digest recomputed by the reference over what was served without error
+	if files != nil {
+		recomputed := ""
+		if ref.spec.DigestType == "b4" && sideOK {
+			recomputed = faultx.RefB4Digest(files, side)
+		} else if ref.spec.DigestType != "b4" && depsOK {
+			recomputed = faultx.RefB5Digest(files, depDigests)
+		}
+		if recomputed != "" && recomputed != ref.digest {
+			return outHitWrong, fmt.Sprintf("digest recomputed over the served content is %s, the key pins %s", recomputed, ref.digest)
+		}
+	}
+	if errOutcome != "" {
+		return errOutcome, errDetail
 	}
 	return outHitOK, ""
 }
